@@ -479,13 +479,13 @@ Lemma derive_objects_ok : forall s uids, wf_store s ->
   | inr l => Forall wf_sobj l /\ (uids <> [] -> l <> [])
   end.
 Proof.
-  intros s uids Hs. induction uids as [|u t IH]; simpl.
+  intros s uids Hs. induction uids as [|u t IH]; cbn [derive_objects].
   - split; [constructor | congruence].
   - destruct (lookup s (Some u)) as [| |o] eqn:E; [exact eq_refl | exact eq_refl | ].
     pose proof (lookup_wf _ _ _ Hs E) as Ho.
     otype_cases o Ho; unfold rd; field_compute; cbv iota; compute_eqb; auto;
       destruct (has_bit (so_mask o) UM_DERIVE_KEY); cbv iota; auto;
-      destruct (derive_objects s t) as [c|l]; auto; destruct IH as [IH1 IH2]; split; [constructor; auto | discriminate].
+      destruct (derive_objects s t) as [c|l]; auto; destruct IH as [IH1 IH2]; (split; [constructor; auto | discriminate]).
 Qed.
 
 Ltac walk :=
@@ -512,4 +512,185 @@ Proof.
   destruct Hl as [Hl1 Hl2]. destruct l as [|k0 others]; [exfalso; apply Hl2; auto|].
   inversion Hl1 as [|? ? Hk0 ?]; subst.
   otype_cases k0 Hk0; unfold rd, unguarded; field_compute; cbv iota; walk.
+Qed.
+
+(* ---- Locate *)
+Lemma get1_field_ok : forall o n r f, wf_sobj o -> find_rule n = Some r ->
+  mem_z (so_otype o) (ar_object_types r) = true -> attr_field n = Some f -> has_field (so_class o) f = false ->
+  f = "cryptographic_algorithm" \/ f = "cryptographic_length".
+Proof.
+  intros o n r f Ho Hr Happ Ef Hf. unfold attr_field in Ef.
+  name_literal n Ef; try discriminate; inversion Ef; subst f; vm_compute in Hr; inversion Hr; subst r; clear Hr Ef;
+    otype_cases o Ho; try (vm_compute in Happ; discriminate Happ); try (vm_compute in Hf; discriminate Hf); auto.
+Qed.
+
+Lemma policy_site_allowed : forall op cr fname site,
+  assoc_s fname policy_unknown = Some (Some site) -> mem_s site (op_sites op) = true -> allowed op cr site.
+Proof. intros. left. auto. Qed.
+
+Lemma ok_loc_object : forall cr o l dates, wf_sobj o -> sites_ok (allowed "LOCATE" cr) (loc_object o l dates).
+Proof.
+  intros cr o l. induction l as [|a t IH]; intros dates Ho; cbn [loc_object]. - exact I.
+  - destruct (find_rule (a_name a)) as [r|] eqn:Hr.
+    + unfold q_applicable. rewrite (q_some _ _ _ _ _ Hr).
+      destruct (mem_z (so_otype o) (ar_object_types r)) eqn:Happ; cbn [negb]; cbv iota; [|exact I].
+      destruct (attr_field (a_name a)) as [f|] eqn:Ef; [|auto].
+      apply ok_rd_get1.
+      * intros Hf. destruct (get1_field_ok _ _ _ _ Ho Hr Happ Ef Hf); subst f; left; vm_compute; reflexivity.
+      * destruct (String.eqb (a_name a) "Initial Date"). { destruct (2 <=? dates)%nat; simpl; auto. }
+        destruct (loc_match o a); simpl; auto.
+      * auto.
+    + unfold q_applicable, q. rewrite Hr.
+      destruct (assoc_s "is_attribute_applicable_to_object_type" policy_unknown) as [[site|]|] eqn:Ep; cbn [negb]; cbv iota; try exact I.
+      vm_compute in Ep. first [ discriminate Ep | inversion Ep; subst site; simpl; left; vm_compute; reflexivity ].
+Qed.
+
+Lemma ok_h_locate : forall cr s l, wf_store s -> sites_ok (allowed "LOCATE" cr) (h_locate s l).
+Proof.
+  intros cr s l Hs. unfold h_locate. destruct l as [|a l]; [exact I|].
+  induction s as [|o s IH]; cbn [loc_store]. - exact I.
+  - inversion Hs; subst. destruct (so_allowed o); auto.
+    pose proof (ok_loc_object cr o (a :: l) 0%nat H1) as Ho.
+    destruct (loc_object o (a :: l) 0); auto.
+Qed.
+
+(* ---- attribute operations *)
+Ltac policy_compute :=
+  repeat match goal with
+         | |- context[assoc_s ?f policy_unknown] =>
+             let b := eval vm_compute in (assoc_s f policy_unknown) in change (assoc_s f policy_unknown) with b
+         end; cbv iota.
+
+Lemma ok_delete_from : forall cr o name value, wf_sobj o -> sites_ok (allowed "DELETE_ATTRIBUTE" cr) (delete_from o name value).
+Proof.
+  intros cr o name value Ho. unfold delete_from.
+  destruct (find_rule name) as [r|] eqn:Hr.
+  - unfold q_applicable, q_deletable, q_multivalued. rewrite !(q_some _ _ _ _ _ Hr).
+    otype_cases o Ho; unfold rd, unguarded; field_compute; cbv iota; walk.
+  - unfold q_applicable, q_deletable, q_multivalued, q. rewrite Hr. policy_compute.
+    otype_cases o Ho; unfold rd, unguarded; field_compute; cbv iota; simpl; walk; try (left; vm_compute; reflexivity).
+Qed.
+
+Lemma ok_h_delete1 : forall cr v s u n i, wf_store s -> sites_ok (allowed "DELETE_ATTRIBUTE" cr) (h_delete1 v s u n i).
+Proof.
+  intros. unfold h_delete1. apply ok_with_obj; auto. intros o Ho.
+  destruct (String.eqb n ""); simpl; auto.
+  destruct (attrs_listed_total v o n) as [k Hk]. rewrite Hk.
+  match goal with |- sites_ok _ (if ?c then _ else _) => destruct c end; simpl; auto. apply ok_delete_from; auto.
+Qed.
+
+Lemma ok_h_delete2 : forall cr s u c r, wf_store s -> sites_ok (allowed "DELETE_ATTRIBUTE" cr) (h_delete2 s u c r).
+Proof.
+  intros. unfold h_delete2. apply ok_with_obj; auto. intros o Ho.
+  destruct c; [apply ok_delete_from; auto|]. destruct r; [apply ok_delete_from; auto|exact I].
+Qed.
+
+Lemma modifiable_field_present : forall n r f otype cls, find_rule n = Some r -> ar_modifiable_by_client r = true ->
+  attr_field n = Some f -> pair_ok otype cls -> has_field cls f = true.
+Proof.
+  intros n r f otype cls Hr Hm Ef Hp. unfold attr_field in Ef.
+  name_literal n Ef; try discriminate; inversion Ef; subst f; vm_compute in Hr; inversion Hr; subst r; clear Hr Ef;
+    try (vm_compute in Hm; discriminate Hm); pair_split Hp; subst; vm_compute; reflexivity.
+Qed.
+
+Lemma modifiable_set_field_present : forall n r f otype cls, find_rule n = Some r -> ar_modifiable_by_client r = true ->
+  set_field n = Some f -> pair_ok otype cls -> has_field cls f = true.
+Proof.
+  intros n r f otype cls Hr Hm Ef Hp. unfold set_field in Ef.
+  name_literal n Ef; try discriminate; inversion Ef; subst f; vm_compute in Hr; inversion Hr; subst r; clear Hr Ef;
+    try (vm_compute in Hm; discriminate Hm); pair_split Hp; subst; vm_compute; reflexivity.
+Qed.
+
+Lemma set_attribute_modifiable : forall op cr t n r vals, pair_ok (t_otype t) (t_cls t) -> find_rule n = Some r ->
+  ar_modifiable_by_client r = true ->
+  match set_attribute t n vals with inl _ => True | inr o => sites_ok (allowed op cr) o end.
+Proof.
+  intros op cr t n r vals Hp Hr Hm.
+  unfold set_attribute, q_multivalued. rewrite (q_some _ _ _ _ _ Hr).
+  destruct (ar_multivalued r).
+  - pair_split Hp; rewrite Hc; multi_branch n.
+  - destruct (set_field n) as [f|] eqn:Ef; [|simpl; auto]. destruct vals as [|a vals]; [simpl; auto|].
+    unfold rd_or. rewrite (modifiable_set_field_present _ _ _ _ _ Hr Hm Ef Hp).
+    match goal with |- context[if ?c then Done else Go] => destruct c end; simpl; auto.
+Qed.
+
+Lemma ver_eqb_eq : forall a b, ver_eqb a b = true -> a = b.
+Proof. intros [a1 a2] [b1 b2] H. unfold ver_eqb in H. simpl in H. apply andb_true_iff in H. destruct H as [H1 H2].
+  apply Z.eqb_eq in H1. apply Z.eqb_eq in H2. subst. reflexivity. Qed.
+
+Lemma supported_cases : forall v, supported_version v = true ->
+  v = (1,0) \/ v = (1,1) \/ v = (1,2) \/ v = (1,3) \/ v = (1,4) \/ v = (2,0).
+Proof.
+  intros v H. unfold supported_version, supported_versions in H. simpl in H.
+  repeat (apply orb_true_iff in H; destruct H as [H|H]; [apply ver_eqb_eq in H; tauto|]). discriminate.
+Qed.
+
+Lemma attrs_listed_list : forall v o n len, supported_version v = true -> wf_sobj o ->
+  attr_list_len o n = Some len -> attrs_listed v o n = inr len.
+Proof.
+  intros v o n len Hv Ho El. unfold attr_list_len in El.
+  name_literal n El; try discriminate; inversion El; subst len; clear El;
+    destruct (supported_cases v Hv) as [H|[H|[H|[H|[H|H]]]]]; subst v;
+    otype_cases o Ho; unfold attrs_listed, attr_list_len; rewrite ?Hot, ?Hcl; vm_compute; reflexivity.
+Qed.
+
+Lemma ok_h_set_attribute : forall cr s u a, wf_store s -> sites_ok (allowed "SET_ATTRIBUTE" cr) (h_set_attribute s u a).
+Proof.
+  intros cr s u a Hs. unfold h_set_attribute. apply ok_with_obj; auto. intros o Ho.
+  destruct (find_rule (a_name a)) as [r|] eqn:Hr.
+  - unfold q_multivalued, q_modifiable. rewrite !(q_some _ _ _ _ _ Hr).
+    destruct (ar_multivalued r); [exact I|]. destruct (ar_modifiable_by_client r) eqn:Hm; [|exact I]. cbn [negb]; cbv iota.
+    apply ok_rd_present. { otype_cases o Ho; vm_compute; reflexivity. }
+    cbn [set_attributes]. unfold q_applicable. rewrite (q_some _ _ _ _ _ Hr).
+    destruct (mem_z (t_otype (stored_target o)) (ar_object_types r)); [|exact I].
+    pose proof (set_attribute_modifiable "SET_ATTRIBUTE" cr (stored_target o) (a_name a) r [a] Ho Hr Hm) as H1.
+    destruct (set_attribute (stored_target o) (a_name a) [a]); auto. exact I.
+  - unfold q_multivalued, q_modifiable, q. rewrite Hr. policy_compute.
+    first [exact I | simpl; left; vm_compute; reflexivity].
+Qed.
+
+Lemma ok_h_modify1 : forall cr v s u a, supported_version v = true -> wf_store s ->
+  sites_ok (allowed "MODIFY_ATTRIBUTE" cr) (h_modify1 v s u a).
+Proof.
+  intros cr v s u a Hv Hs. unfold h_modify1. apply ok_with_obj; auto. intros o Ho.
+  destruct (find_rule (a_name a)) as [r|] eqn:Hr.
+  - unfold q_multivalued, q_modifiable. rewrite !(q_some _ _ _ _ _ Hr).
+    destruct (ar_modifiable_by_client r) eqn:Hm; [|exact I]. cbn [negb]; cbv iota.
+    destruct (ar_multivalued r).
+    + cbv zeta. unfold get_attr_unguarded. destruct (attr_field (a_name a)) as [f|] eqn:Ef.
+      * unfold rd_get1. rewrite (modifiable_field_present _ _ _ _ _ Hr Hm Ef Ho).
+        destruct (attr_list_len o (a_name a)) as [n|] eqn:El.
+        -- match goal with |- sites_ok _ (if ?c then _ else _) => destruct c eqn:Eidx end; [|exact I].
+           rewrite (attrs_listed_list v o _ n Hv Ho El). apply andb_true_iff in Eidx. destruct Eidx as [_ E2]. rewrite E2. exact I.
+        -- apply ok_unguarded. left; vm_compute; reflexivity.
+      * apply ok_unguarded. left; vm_compute; reflexivity.
+    + destruct (a_index a); [exact I|].
+      destruct (attrs_listed_total v o (a_name a)) as [k Hk]. rewrite Hk. destruct k; [exact I|].
+      pose proof (set_attribute_modifiable "MODIFY_ATTRIBUTE" cr (stored_target o) (a_name a) r [a] Ho Hr Hm) as H1.
+      destruct (set_attribute (stored_target o) (a_name a) [a]); auto. exact I.
+  - unfold q_multivalued, q_modifiable, q. rewrite Hr. policy_compute.
+    first [exact I | simpl; left; vm_compute; reflexivity].
+Qed.
+
+Lemma ok_h_modify2 : forall cr s u a c, wf_store s -> sites_ok (allowed "MODIFY_ATTRIBUTE" cr) (h_modify2 s u a c).
+Proof.
+  intros cr s u a c Hs. unfold h_modify2. apply ok_with_obj; auto. intros o Ho.
+  destruct (find_rule (a_name a)) as [r|] eqn:Hr.
+  - unfold q_multivalued, q_modifiable. rewrite !(q_some _ _ _ _ _ Hr).
+    destruct (ar_modifiable_by_client r) eqn:Hm; [|exact I]. cbn [negb]; cbv iota.
+    pose proof (set_attribute_modifiable "MODIFY_ATTRIBUTE" cr (stored_target o) (a_name a) r [a] Ho Hr Hm) as H1.
+    destruct (ar_multivalued r).
+    + destruct c as [c|]; [|exact I].
+      destruct (attr_list_len o (a_name a)); [|exact I]. destruct (attr_field (a_name a)) as [f|] eqn:Ef; [|exact I].
+      apply ok_rd_present; [eapply modifiable_field_present; eauto | exact I].
+    + destruct c as [c|].
+      * destruct (attr_field (a_name a)) as [f|] eqn:Ef; [|exact I].
+        apply ok_rd_present; [eapply modifiable_field_present; eauto |].
+        destruct (loc_match o c); [|exact I].
+        destruct (set_attribute (stored_target o) (a_name a) [a]); auto. exact I.
+      * unfold get_attr_unguarded. destruct (attr_field (a_name a)) as [f|] eqn:Ef; [|exact I].
+        unfold rd_get1. rewrite (modifiable_field_present _ _ _ _ _ Hr Hm Ef Ho).
+        destruct (set_attribute (stored_target o) (a_name a) [a]); auto. exact I.
+  - unfold q_multivalued, q_modifiable, q. rewrite Hr. policy_compute.
+    first [exact I | simpl; left; vm_compute; reflexivity].
 Qed.
